@@ -449,6 +449,30 @@ func isBasicNumberKind(kind reflect.Kind) bool {
 func convToBasicNumber(source interface{}, target reflect.Type) (interface{}, error) {
 	if v, ok := source.(*decimal.Big); ok {
 		f, _ := v.Float64()
+		// float64 cannot hold every integer (9007199254740993 came through as ...992) and
+		// decimal's own Float64 is not correctly rounded: truncate in decimal for integer
+		// targets and convert the decimal text for float targets
+		if v.IsFinite() {
+			t := newDecimalBig().Copy(v)
+			t.Context.RoundingMode = decimal.ToZero
+			if iv, exact := t.RoundToInt().Int64(); exact {
+				switch target.Kind() {
+				case reflect.Int8:
+					return int8(iv), nil
+				case reflect.Int16:
+					return int16(iv), nil
+				case reflect.Int:
+					return int(iv), nil
+				case reflect.Int32:
+					return int32(iv), nil
+				case reflect.Int64:
+					return iv, nil
+				}
+			}
+			if nearest, err := strconv.ParseFloat(v.String(), 64); err == nil {
+				f = nearest
+			}
+		}
 		switch target.Kind() {
 		case reflect.Int8:
 			return int8(f), nil
